@@ -1268,6 +1268,9 @@ def gen_case(rng: Rng, max_ops: int = 14) -> dict:
     if rng.chance(1, 3):
         tgt_host = rng.choice(hosts)
         topo["tripwire"] = {"host": tgt_host, "target": rng.choice(ifaces), "also": list(hosts)}
+        if kind == "wireless" and rng.chance(1, 2):
+            # an access point: toggled while a frame is in the air, i.e. inside the loop of AirSpace.transmit
+            topo["tripwire"]["target"] = "wr%d:1" % rng.below(len(hosts))
     if rng.chance(1, 5):
         # a C2 server and a beacon: the second piece of real software that executes requests it receives over the network
         a0 = rng.choice(hosts)
